@@ -40,7 +40,10 @@ ASSUMPTIONS = [
 ]
 
 ALPHA = ["=", " ", '"', "'", "2", "5", "0", ".", "-", "+", "a", "O", "K"]
-KEYS = ["version", "a", "a/b", "ns/all", "ns/all/x", "config-file", "net/listeners/socks", "x-y", "status/bootstrap-phase"]
+KEYS = ["version", "a", "a/b", "ns/all", "ns/all/x", "config-file", "net/listeners/socks", "x-y", "status/bootstrap-phase",
+        # real GETINFO keys carry more than letters, '/' and '-': fingerprints with '$', addresses with '.', '+' lists
+        "ns/id/$0A51534C05878821DE9E884BC6A6A4052EAB4BCA", "ip-to-country/1.2.3.4", "ip-to-country/10203x4",
+        "dir/status/fp/AA+BB", "desc/name/moria1*", "md/id/(x)", "ns/purpose/bridge?", "a.b", "aXb"]
 PRINTABLE = st.text(alphabet=st.characters(min_codepoint=0x20, max_codepoint=0x7e), max_size=60)
 TRAPS = ["OK", " OK", "250 OK", "250-a=b", "650 CIRC", ".", "..", "\"\"", "\"", "'", "\"a\"", "'a'", "\"a", "a\"",
          "a=b", "a b=c", " =", "= ", "k=", "=", "DEFAULT", " ", "  x  ", "version=1", "a=1"]
